@@ -596,6 +596,8 @@ class IndexOps:
             if st == 'raise' or pos != list(range(len(exp_labels))):
                 fail(o, f'positions {pos!r:.300}')
             for i, lab in enumerate(m.raw):
+                if m.unit is None and isinstance(lab, np.datetime64):
+                    continue  # datetime64 held in a non-datetime index: the library's loose date matching applies (scoped out, DESIGN 9)
                 st, p = call(obj.loc_to_iloc, lab)
                 if st == 'raise' or not isinstance(p, (int, np.integer)) or int(p) != i:
                     fail(o, f'loc_to_iloc({lab!r}) -> {p!r}, expected {i}')
